@@ -382,12 +382,12 @@ theorem c05_concurrency_refused (c : H2Conn) (sid : Nat) (kind : HdrKind) (es : 
     (recvHeaders c sid kind es none false).1.streams.length = c.streams.length := by
   have h1 : ¬ sid % 2 = 0 := by omega
   have h2 : ¬ sid ≤ c.cid := by omega
-  have heq : recvHeaders c sid kind es none false = (refuseStream c sid).andThen discardHeaders := by
+  have heq : recvHeaders c sid kind es none false = (refuseStream c sid).andThen (discardHeaders · kind) := by
     simp [recvHeaders, h1, h2, hg, hfull]
   rw [heq]
   refine ⟨?_, ?_⟩
   · simp [Res.andThen, refuseStream, hack]
-  · rw [andThen_len _ _ discardHeaders_len, refuseStream_len]
+  · rw [andThen_len _ _ (discardHeaders_len kind), refuseStream_len]
 
 /-- ... before that acknowledgement (the client cannot know the limit yet): more than 100 streams
     (id above 200) => GOAWAY(ENHANCE_YOUR_CALM); otherwise the HEADERS frame is either left in the
@@ -407,7 +407,7 @@ theorem c05_concurrency_before_ack (c : H2Conn) (sid : Nat) (kind : HdrKind) (es
   have h2 : ¬ sid ≤ c.cid := by omega
   refine ⟨fun h => ?_, fun h _ => ?_, fun h hany => ?_⟩
   · have ob := sendGoaway_observable c E.enhanceCalm (by decide) (by omega)
-    have hdis : discardHeaders (sendGoaway c E.enhanceCalm).1 = ((sendGoaway c E.enhanceCalm).1, []) := by
+    have hdis : discardHeaders (sendGoaway c E.enhanceCalm).1 kind = ((sendGoaway c E.enhanceCalm).1, []) := by
       simp [discardHeaders, ob.2.2]
     simp only [ConnErr, recvFrame, hng, hd, Bool.false_eq_true, or_self, if_false, recvHeaders, h1, h2, hg, ne_eq,
       not_true_eq_false, hfull, ge_iff_le, if_true, Res.andThen, refuseStream, hpre, h, and_self, hdis, List.append_nil]
